@@ -540,3 +540,8 @@ pub fn minimise_text(text: &str, still_fails: impl Fn(&str) -> bool) -> String {
     let out = minimise_seq(&cur, |c| still_fails(&to_s(c)));
     to_s(&out)
 }
+
+/// Root of the repository under test (env VERIF_REPO, default /repo).
+pub fn repo_root() -> PathBuf {
+    PathBuf::from(std::env::var("VERIF_REPO").unwrap_or_else(|_| "/repo".to_string()))
+}
